@@ -589,4 +589,13 @@ def assemble_walk(repo: Repo) -> RuleRun:
 
 assemble_walk.rule_id = "C12.ASSEMBLE-WALK"
 
-RULES = [clear_complete, grade_idempotent, lockstep_filter, backport_map, delete_skip, assemble_walk]
+def backport_owns_points(repo: Repo) -> RuleRun:
+    """After backport() every operation owns its eight points: Face.update (and every other coordinate setter) stores copies."""
+    from ..alias import coordinate_store_rule
+
+    return coordinate_store_rule(repo, PROP, "C12.BACKPORT-OWNS-POINTS")
+
+
+backport_owns_points.rule_id = "C12.BACKPORT-OWNS-POINTS"
+
+RULES = [clear_complete, grade_idempotent, lockstep_filter, backport_map, delete_skip, assemble_walk, backport_owns_points]
